@@ -386,7 +386,10 @@ class Engine:
         # prefer a counterexample that violates the claim by a margin (robust under float rounding in the replay):
         # a ladder of margins / value boxes, coarse to fine; slack_claim may be one formula or a callable level -> formula
         ladder = [(None, bound)] if not callable(slack_claim) else [(0, 1000), (1, 100), (2, 10)]
-        if slack_claim is not None:
+        # (the margin search is done for the first few violations of a task only: the driver replays a few models per signature, and at
+        # large player counts every extra solve costs seconds)
+        self.stats["slack_attempts"] = self.stats.get("slack_attempts", 0) + 1
+        if slack_claim is not None and self.stats["slack_attempts"] <= 6:
             for level, bnd in ladder:
                 sc = slack_claim(level) if callable(slack_claim) else slack_claim
                 if sc is None:
